@@ -191,6 +191,57 @@ def convert(priv, d, **opts):
         return fh.read()
 
 
+# -- one KeyConverter object used repeatedly (library use) -------------------------------------------------
+CONV_OPS = ["prepare", "generate", "rewrite-key+prepare", "rewrite-key+generate"]
+CONV_KEYS = ["p256", "p521", "ed25519", "ed448", "p384"]
+
+
+def convobj_cases(tier):
+    import itertools
+    return [{"ops": list(p), "k": k} for n in (1, 2, 3) for p in itertools.product(range(len(CONV_OPS)), repeat=n) for k in range(2 if tier == "quick" else 5)]
+
+
+def run_convobj(case, agg):
+    """every sequence of up to 3 operations on ONE KeyConverter object: prepare_file_contents / generate_c_file, with
+    the key file (same path) replaced by another key before some of them - each result is exactly the public key that
+    is in the input file at that moment"""
+    from suit_generator.cmd_convert import KeyConverter
+    from .. import keys as vkeys
+    kinds = CONV_KEYS[case["k"]:] + CONV_KEYS[:case["k"]]
+    label = f"one KeyConverter object, operations {[CONV_OPS[i] for i in case['ops']]}, first key {kinds[0]}"
+    with fresh_dir("c15o") as d:
+        inp, out = os.path.join(d, "k.pem"), os.path.join(d, "k.c")
+        cur = 0
+        priv = vkeys.private_key(kinds[cur] + "_conv")
+        open(inp, "wb").write(priv.private_bytes(serialization.Encoding.PEM, serialization.PrivateFormat.PKCS8, serialization.NoEncryption()))
+        try:
+            conv = KeyConverter(input_file=inp, output_file=out, **DEFAULTS)
+            for n, oi in enumerate(case["ops"]):
+                op = CONV_OPS[oi]
+                if op.startswith("rewrite-key"):
+                    cur += 1
+                    priv = vkeys.private_key(kinds[cur % len(kinds)] + "_conv")
+                    open(inp, "wb").write(priv.private_bytes(serialization.Encoding.PEM, serialization.PrivateFormat.PKCS8, serialization.NoEncryption()))
+                if op.endswith("prepare"):
+                    text = conv.prepare_file_contents()
+                else:
+                    conv.generate_c_file()
+                    text = open(out, encoding="utf-8").read()
+                got, problems, _ = parse_c(text)
+                want = expected_public(priv)
+                if got is None or problems:
+                    agg.viol("C15:converter-reuse/malformed-c", f"{label}: after operation {n + 1}: {problems[:2]}")
+                    return
+                if got != want:
+                    agg.viol("C15:converter-reuse/array", f"{label}: after operation {n + 1} the array has {len(got)} bytes "
+                             f"({got[:8].hex()}...), the public key in the input file has {len(want)} ({want[:8].hex()}...)")
+                    return
+        except Exception as e:
+            agg.viol(f"C15:converter-reuse/failed/{type(e).__name__}", f"{label}: {type(e).__name__}: {str(e)[:200]}")
+            return
+    agg.ok(h8("c15o", case), f"ok:ops={len(case['ops'])}", sample=case if case["ops"] == [0, 3] and case["k"] == 1 else None)
+
+
 def scalar_cases(tier):
     n = 5000 if tier == "quick" else 50000
     out = []
@@ -418,6 +469,8 @@ def plan(tier):
         CaseStage("keys-same-prefix-twice", lambda: rekey_cases(tier), run_rekey, rule="two runs with one prefix (4 type pairs x 2 encodings)"),
         CaseStage("convert-nist-scalars", lambda: scalar_cases(tier), run_scalars, chunk=1, rule="d = 1..N per curve + leading-zero table"),
         CaseStage("convert-ed", lambda: ed_cases(tier), run_ed, chunk=1, rule="Ed25519/Ed448 from seeds 0..255"),
+        CaseStage("converter-object-reused", lambda: convobj_cases(tier), run_convobj,
+                  rule="all sequences of <= 3 operations {prepare, generate} x {key file kept, key file replaced} on one KeyConverter object"),
         CaseStage("cli", lambda: cli_cases(tier), run_cli, rule="real CLI: keys with default / explicit options; convert with every option"),
         CaseStage("convert-formatting", lambda: fmt_cases(tier), run_fmt, disjoint=True, rule="columns x indent x tab x no-length x no-const x length type"),
     ]
